@@ -42,7 +42,7 @@ LEVELS = {
         'design_ref': 'DESIGN.md section 7 (C06)',
         'note': 'Trusted: CPython for enumeration. Known finding KF-C06-LG (gradient shortcut lg) is reported, not suppressed for other inputs.',
         'technique': TECH + '; complete finite-domain enumeration of the built-in snippet table; bounded stand-in for user tables',
-        'clauses': 'P: stylesheet.find_best_match; F: builtin-keys, builtin-keys-scoped, builtin-keywords, user-override-builtin; B: user-tables, user-case-keys; added in the third session: builtin-inner-keywords, user-keywords, history-independence.',
+        'clauses': 'P: stylesheet.find_best_match; F: builtin-keys, builtin-keys-scoped, builtin-keywords, user-override-builtin; B: user-tables, user-case-keys; added in the third session: builtin-inner-keywords, user-keywords, history-independence, global-config-tables, sibling-keyword-history.',
     },
     'C09': {
         'category': 'other',
@@ -90,7 +90,7 @@ LEVELS = {
         'design_ref': 'DESIGN.md section 7 (C02)',
         'note': 'Trusted: CPython for the bounded part; the independent tag parser / executable spec of the bounded oracle. Assumed contracts (trusted=True): AbbreviationNode.__init__ and convert_attribute (names and values are rendered through stringify(), a globals()-based dispatch outside the verified subset), ConvertState.get_text (caller data), convert.some. Assumed typing at the module boundary: the parser stores Repeater tokens in .repeat (class view CvTokenElement/CvTokenGroup). The converters\' frame names two output-node fields class-wide (AbbreviationNode::value, AbbreviationNode::repeat).',
         'technique': TECH + '; bounded stand-in: exhaustive repeater grammar + random',
-        'clauses': 'P: tokenizer repeater/repeater_number; convert.convert_statement (ensures_local over the ghost copy counter), convert_group, convert_element, attach_repeater, clone_repeater, insert_text, deepest_node; stringify.RepeaterNumber, RepeaterPlaceholder; B: copies-maxrepeat, numbering-forms, random-beyond; added in the third session: numbering-beside-placeholders, random-placeholders.',
+        'clauses': 'P: tokenizer repeater/repeater_number; convert.convert_statement (ensures_local over the ghost copy counter), convert_group, convert_element, attach_repeater, clone_repeater, insert_text, deepest_node; stringify.RepeaterNumber, RepeaterPlaceholder; B: copies-maxrepeat, numbering-forms, random-beyond; added in the third session: numbering-beside-placeholders, random-placeholders, numbering-in-attribute-names, random-attribute-names, maxrepeat-call-history, random-call-histories.',
     },
     'C03': {
         'category': 'other',
@@ -98,7 +98,7 @@ LEVELS = {
         'design_ref': 'DESIGN.md section 7 (C03)',
         'note': 'Trusted: CPython for the bounded part; the independent tag parser / executable spec of the bounded oracle.',
         'technique': TECH + '; bounded stand-in: exhaustive attribute mention sequences',
-        'clauses': 'P: markup.attributes.merge_declarations; B: attr-sequences-exhaustive, attr-options-exhaustive, attr-owner-element; added in the third session: attr-snippet-elements-and-cache, attr-doubled-shorthand-name-maps, attr-modifier-combinations, attr-name-case.',
+        'clauses': 'P: markup.attributes.merge_declarations; B: attr-sequences-exhaustive, attr-options-exhaustive, attr-owner-element; added in the third session: attr-snippet-elements-and-cache, attr-doubled-shorthand-name-maps, attr-modifier-combinations, attr-name-case, attr-value-quote-characters.',
     },
     'C04': {
         'category': 'other',
@@ -106,7 +106,7 @@ LEVELS = {
         'design_ref': 'DESIGN.md section 7 (C04)',
         'note': 'Trusted: CPython for the bounded part; the independent tag parser / executable spec of the bounded oracle.',
         'technique': TECH + '; bounded stand-in: exhaustive text payloads and wrap lists',
-        'clauses': 'P: tokenizer literal and context predicates, convert.insert_text, stringify.RepeaterPlaceholder; B: inline-text-exhaustive, attr-text-exhaustive, wrap-implicit-repeater, wrap-whole-text, text-unicode-line-separators; added in the third session: wrap-implicit-generated.',
+        'clauses': 'P: tokenizer literal and context predicates, convert.insert_text, stringify.RepeaterPlaceholder; B: inline-text-exhaustive, attr-text-exhaustive, wrap-implicit-repeater, wrap-whole-text, text-unicode-line-separators; added in the third session: wrap-implicit-generated, self-closing-element-text.',
     },
     'C07': {
         'category': 'other',
@@ -114,7 +114,7 @@ LEVELS = {
         'design_ref': 'DESIGN.md section 7 (C07)',
         'note': 'Trusted: CPython for the bounded part; the independent tag parser / executable spec of the bounded oracle.',
         'technique': TECH + '; bounded stand-in: exhaustive short inputs + corpus prefixes/mutations x configurations',
-        'clauses': 'P: Scanner.error, both tokenizers, TokenScanner, markup parser (12 functions), stylesheet parser (5 functions); B: 13 clauses (markup/stylesheet exhaustive, prefixes, mutations, snippet names, random); added in the third session: markup-exhaustive-full, markup-exhaustive-mid, markup-exhaustive-long, markup-prefixes, markup-mutations, markup-snippet-names, markup-random, stylesheet-exhaustive-full, stylesheet-exhaustive-long, stylesheet-nocache, stylesheet-prefixes-mutations, stylesheet-snippet-keys, stylesheet-random.',
+        'clauses': 'P: Scanner.error, both tokenizers, TokenScanner, markup parser (12 functions), stylesheet parser (5 functions); B: 13 clauses (markup/stylesheet exhaustive, prefixes, mutations, snippet names, random); added in the third session: markup-exhaustive-full, markup-exhaustive-mid, markup-exhaustive-long, markup-prefixes, markup-mutations, markup-snippet-names, markup-random, stylesheet-exhaustive-full, stylesheet-exhaustive-long, stylesheet-nocache, stylesheet-prefixes-mutations, stylesheet-snippet-keys, stylesheet-random, markup-foreign-short, markup-foreign-corpus, markup-foreign-random, stylesheet-foreign-short, stylesheet-foreign-corpus, stylesheet-foreign-random.',
     },
     'C08': {
         'category': 'other',
@@ -122,7 +122,7 @@ LEVELS = {
         'design_ref': 'DESIGN.md section 7 (C08)',
         'note': 'Trusted: CPython for the bounded part; the independent tag parser / executable spec of the bounded oracle.',
         'technique': TECH + '; bounded stand-in: call histories vs fresh-interpreter reference, retention monitor',
-        'clauses': 'P: merged_data frame, Config.__init__, markup.parse restores text on every exit; B: markup-shared-cache, raise-inside-resolution, shared-cache, shared-config-object, independent-calls, random-histories, no-retention; added in the third session: markup-option-switch, snippet-value-units, context-switch, snippet-table-switch.',
+        'clauses': 'P: merged_data frame, Config.__init__, markup.parse restores text on every exit; B: markup-shared-cache, raise-inside-resolution, shared-cache, shared-config-object, independent-calls, random-histories, no-retention; added in the third session: markup-option-switch, snippet-value-units, context-switch, snippet-table-switch, function-arguments.',
     },
     'C11': {
         'category': 'other',
@@ -138,7 +138,7 @@ LEVELS = {
         'design_ref': 'DESIGN.md section 7 (C12)',
         'note': 'Trusted: CPython for the bounded part; the independent tag parser / executable spec of the bounded oracle.',
         'technique': TECH + '; bounded stand-in: option-pair comparisons, indentation oracle',
-        'clauses': 'P: format.html.get_indent, OutputStream.*; B: cosmetic-pairs, indent-equals-depth, selfclose-exact; added in the third session: cosmetic-pairs-context, indent-equals-depth-context, selfclose-exact-context.',
+        'clauses': 'P: format.html.get_indent, OutputStream.*; B: cosmetic-pairs, indent-equals-depth, selfclose-exact; added in the third session: cosmetic-pairs-context, indent-equals-depth-context, selfclose-exact-context, indent-multiline-text.',
     },
     'C13': {
         'category': 'other',
@@ -146,7 +146,7 @@ LEVELS = {
         'design_ref': 'DESIGN.md section 7 (C13)',
         'note': 'Trusted: CPython for the bounded part; the independent tag parser / executable spec of the bounded oracle.',
         'technique': TECH + '; bounded stand-in: recording callbacks over generated abbreviations x newline/indent settings',
-        'clauses': 'P: OutputStream._push/push/push_string/push_newline/push_indent/push_field, format.utils.push_tokens; B: callback-positions(-multiline-placeholder), tabstops-auto, tabstops-explicit; added in the third session: callback-positions-multiline-placeholder, tabstops-comment, callback-positions-multiline-literal.',
+        'clauses': 'P: OutputStream._push/push/push_string/push_newline/push_indent/push_field, format.utils.push_tokens; B: callback-positions(-multiline-placeholder), tabstops-auto, tabstops-explicit; added in the third session: callback-positions-multiline-placeholder, tabstops-comment, callback-positions-multiline-literal, tabstops-empty-forms.',
     },
     'C14': {
         'category': 'other',
@@ -154,7 +154,7 @@ LEVELS = {
         'design_ref': 'DESIGN.md section 7 (C14)',
         'note': 'Trusted: CPython for the bounded part; the independent tag parser / executable spec of the bounded oracle.',
         'technique': TECH + '; complete enumeration of the built-in snippet tables; bounded stand-in for decorated aliases and user tables',
-        'clauses': 'P: markup.snippets resolve closure; F: snippet-keys, builtin-alias; B: alias-decorated, user-tables; added in the third session: alias-nested, alias-decorated-options, alias-after-history.',
+        'clauses': 'P: markup.snippets resolve closure; F: snippet-keys, builtin-alias; B: alias-decorated, user-tables; added in the third session: alias-nested, alias-decorated-options, alias-after-history, self-rooted-definitions.',
     },
     'C15': {
         'category': 'other',
@@ -162,7 +162,7 @@ LEVELS = {
         'design_ref': 'DESIGN.md section 7 (C15)',
         'note': 'Trusted: CPython for the bounded part; the independent tag parser / executable spec of the bounded oracle.',
         'technique': TECH + '; bounded stand-in: exhaustive skeletons, head forms, text-only / self-closing placements',
-        'clauses': 'P: format.indent_format.element; B: lines-skeleton-exhaustive, head-forms, text-only-self-closing-levels/-heads, random-large; added in the third session: text-only-self-closing-heads, class-count, line-break-kinds, random-wide-heads-line-breaks, implied-attributes, self-closing-parents, self-closing-parents-skeletons, random-self-closing-implied.',
+        'clauses': 'P: format.indent_format.element; B: lines-skeleton-exhaustive, head-forms, text-only-self-closing-levels/-heads, random-large; added in the third session: text-only-self-closing-heads, class-count, line-break-kinds, random-wide-heads-line-breaks, implied-attributes, self-closing-parents, self-closing-parents-skeletons, random-self-closing-implied, deep-trees, write-histories.',
     },
     'C19': {
         'category': 'other',
@@ -170,6 +170,6 @@ LEVELS = {
         'design_ref': 'DESIGN.md section 7 (C19)',
         'note': 'Trusted: CPython for the bounded part; the independent tag parser / executable spec of the bounded oracle.',
         'technique': TECH + '; bounded stand-in: exhaustive token sequences vs independent evaluator',
-        'clauses': 'P: math_expression.extract number/extract, parser consume_number/op1/op2/number/order_tokens/parse; B: evaluate-token-sequences(-narrow), evaluate-wellformed-deeper, evaluate-random, evaluate-strings, evaluate-intdiv-literals, extract-exhaustive; added in the third session: evaluate-token-sequences-narrow.',
+        'clauses': 'P: math_expression.extract number/extract, parser consume_number/op1/op2/number/order_tokens/parse; B: evaluate-token-sequences(-narrow), evaluate-wellformed-deeper, evaluate-random, evaluate-strings, evaluate-intdiv-literals, extract-exhaustive; added in the third session: evaluate-token-sequences-narrow, evaluate-foreign-notation.',
     },
 }
